@@ -1445,4 +1445,152 @@ theorem innerStep_target (opts : Opts) (m : Mod) (t : Nat) (path : Path) (acc : 
         have hp := (applyOneDeviate_remove _ _ _ _ _ _ hd).1
         exact getAt_removeAt_gone _ path (by intro he; simp [he] at hp) r
 
+
+theorem nodeStep_name (opts : Opts) (ms : Stmt) (hp : Bool) (acc : Entry × Bool × List Err) (ds : String × Entry) :
+    (nodeStep opts ms hp acc ds).1.name = acc.1.name := applyOneDeviate_name _ _ _ _ _ _
+
+theorem pathNamed_step {path : Path} {n n' : Entry} (h : n'.name = n.name) (hn : PathNamed path n) : PathNamed path n' := by
+  unfold PathNamed at hn ⊢
+  split
+  · next k hk => rw [hk] at hn; rw [h]; exact hn
+  · trivial
+
+theorem innerFold_target (opts : Opts) (m : Mod) (t : Nat) (path : Path) (ds : List (String × Entry)) :
+    ∀ (acc : Forest × Entry × Bool × List Err), PathNamed path acc.2.1 → TargetInv t path acc →
+      TargetInv t path (ds.foldl (innerStep opts m t path) acc) := by
+  induction ds with
+  | nil => intro acc _ h; exact h
+  | cons d ds ih =>
+    intro acc hn h
+    simp only [List.foldl_cons]
+    apply ih
+    · rw [innerStep_node]
+      exact pathNamed_step (nodeStep_name _ _ _ _ _) hn
+    · exact innerStep_target opts m t path acc d hn h
+
+/-- **One deviation, its deviate statements in list order.**  Start: the forest holds `node0` at the
+target.  After the inner fold of `applyDeviations` the target holds the result of the left fold of
+`applyOneDeviate` over the statements (`nodeFold`) — or, once a not-supported has been applied, neither
+the target nor anything below it exists; the errors are those of the statements, in order. -/
+theorem innerFold_spec (opts : Opts) (m : Mod) (t : Nat) (path : Path) (ds : List (String × Entry))
+    (f : Forest) (node0 : Entry) (errs : List Err) (h0 : (f.tree? t).bind (·.getAt path) = some node0) :
+    let r := ds.foldl (innerStep opts m t path) (f, node0, false, errs)
+    let n := nodeFold opts m.stmt (!path.isEmpty) (node0, false, errs) ds
+    r.2 = n ∧
+    (n.2.1 = false → (r.1.tree? t).bind (·.getAt path) = some n.1) ∧
+    (n.2.1 = true → ∀ q, (r.1.tree? t).bind (·.getAt (path ++ q)) = none) := by
+  intro r n
+  have hnode : r.2 = n := innerFold_node opts m t path ds (f, node0, false, errs)
+  have hnamed : PathNamed path node0 := by
+    cases hroot : f.tree? t with
+    | none => simp [hroot] at h0
+    | some root => rw [hroot] at h0; exact pathNamed_of_getAt path root node0 h0
+  have hinv := innerFold_target opts m t path ds (f, node0, false, errs) hnamed ⟨fun _ => h0, fun h => by simp at h⟩
+  refine ⟨hnode, ?_, ?_⟩
+  · intro hd
+    have := hinv.1 (by rw [show r.2.2.1 = n.2.1 from by rw [hnode]]; exact hd)
+    rw [this, show r.2.1 = n.1 from by rw [hnode]]
+  · intro hd
+    exact hinv.2 (by rw [show r.2.2.1 = n.2.1 from by rw [hnode]]; exact hd)
+
+/-- Written order: a longer list of deviate statements is the shorter one continued. -/
+theorem nodeFold_append (opts : Opts) (ms : Stmt) (hp : Bool) (acc : Entry × Bool × List Err) (a b : List (String × Entry)) :
+    nodeFold opts ms hp acc (a ++ b) = nodeFold opts ms hp (nodeFold opts ms hp acc a) b := by
+  simp [nodeFold, List.foldl_append]
+
+/-- Errors are only ever appended. -/
+theorem nodeFold_errs_prefix (opts : Opts) (ms : Stmt) (hp : Bool) (ds : List (String × Entry)) :
+    ∀ acc : Entry × Bool × List Err, acc.2.2 <+: (nodeFold opts ms hp acc ds).2.2 := by
+  induction ds with
+  | nil => intro acc; exact List.prefix_refl _
+  | cons d ds ih =>
+    intro acc
+    simp only [nodeFold, List.foldl_cons]
+    exact List.IsPrefix.trans (List.prefix_append _ _) (ih (nodeStep opts ms hp acc d))
+
+/-- A statement that reports makes the deviation report. -/
+theorem nodeFold_reports (opts : Opts) (ms : Stmt) (hp : Bool) (acc : Entry × Bool × List Err)
+    (pre post : List (String × Entry)) (d : String × Entry)
+    (h : (applyOneDeviate opts ms d.1 d.2 hp (nodeFold opts ms hp acc pre).1).2.2 ≠ []) :
+    (nodeFold opts ms hp acc (pre ++ d :: post)).2.2 ≠ [] := by
+  rw [nodeFold_append]
+  simp only [nodeFold, List.foldl_cons]
+  have hp' := nodeFold_errs_prefix opts ms hp post (nodeStep opts ms hp (List.foldl (nodeStep opts ms hp) acc pre) d)
+  intro hnil
+  simp only [nodeFold] at hp'
+  rw [hnil] at hp'
+  have := List.prefix_nil.mp hp'
+  simp only [nodeStep] at this
+  simp only [nodeFold] at h
+  split at this
+  · simp at this
+  · simp at this; exact h this.2
+
+
+/-! #### several statements against `Spec.deviateSeq` -/
+
+/-- The model's state of a target (node, unlinked, errors) and the specification's state agree. -/
+def SeqRel (acc : Entry × Bool × List Err) (st : SeqState) : Prop :=
+  acc.2.2 = [] ∧ st.node = (if acc.2.1 then none else some (propsOf acc.1)) ∧ unrep st.errs = true ∧ st.unsupported = false
+
+theorem staged_other_errs (opts : Opts) (ms : Stmt) (kind : String) (spec : Entry) (hp : Bool) (node : Entry)
+    (hk : kindOf kind = .other) : (staged opts ms kind spec hp node).2.2 ≠ [] := by
+  unfold staged; simp [hk]
+
+theorem seqRel_step (opts : Opts) (ms : Stmt) (acc : Entry × Bool × List Err) (st : SeqState) (d : String × Entry)
+    (hr : SeqRel acc st) (he : (nodeStep opts ms true acc d).2.2 = []) :
+    SeqRel (nodeStep opts ms true acc d) (seqStep opts.ignoreNotSupported st (stmtOf d.1 d.2)) := by
+  obtain ⟨node, detached, errs⟩ := acc
+  obtain ⟨h1, h2, h3, h4⟩ := hr
+  simp only at h1 h2 h3 h4
+  subst h1
+  simp only [nodeStep, List.nil_append] at he ⊢
+  have hstg := applyOneDeviate_eq_staged opts ms d.1 d.2 true node
+  cases detached with
+  | false =>
+    simp only [Bool.and_false, Bool.false_eq_true, if_false, Bool.false_or] at he ⊢
+    simp only [Bool.false_eq_true, if_false] at h2
+    rw [hstg] at he ⊢
+    obtain ⟨hv, hu⟩ := (staged_errs opts ms d.1 d.2 true node (fun _ => rfl)).mp he
+    have heff := staged_effect opts ms d.1 d.2 true node he
+    refine ⟨he, ?_, ?_, ?_⟩
+    · simp only [seqStep, h2]; exact heff
+    · simp only [seqStep, h2, unrep_append, h3, hv, Bool.and_self]
+    · simp only [seqStep, h2, h4, hu, Bool.or_self]
+  | true =>
+    simp only [Bool.and_true, Bool.true_or] at he ⊢
+    simp only [if_true] at h2
+    have hrm : (applyOneDeviate opts ms d.1 d.2 true node).2.1 = false := by
+      cases hx : (applyOneDeviate opts ms d.1 d.2 true node).2.1
+      · rfl
+      · rw [hx] at he; simp at he
+    rw [hrm] at he
+    simp only [Bool.false_eq_true, if_false] at he
+    refine ⟨by rw [hrm]; simpa using he, ?_, ?_, ?_⟩
+    · simp [seqStep, h2]
+    · simp only [seqStep, h2, unrep_append, h3, Bool.true_and]
+      have hk : kindOf d.1 ≠ .other := by
+        intro hk; rw [hstg] at he; exact staged_other_errs opts ms d.1 d.2 true node hk he
+      simp [unrep, kind_stmtOf, hk, reportedByCode, DevErr.claimed]
+    · simp [seqStep, h2, h4]
+
+/-- **Several deviate statements = the specification's left fold.**  When the statements of a
+deviation on a target with a parent are applied without an error, the target ends up with exactly
+the properties `Spec.deviateSeq` computes from the statements in list order (or removed where it
+says removed), and the specification found no broken condition that the code checks. -/
+theorem nodeFold_seq (opts : Opts) (ms : Stmt) (ds : List (String × Entry)) :
+    ∀ (acc : Entry × Bool × List Err) (st : SeqState), SeqRel acc st →
+      (nodeFold opts ms true acc ds).2.2 = [] →
+      SeqRel (nodeFold opts ms true acc ds)
+        ((ds.map fun d => stmtOf d.1 d.2).foldl (seqStep opts.ignoreNotSupported) st) := by
+  induction ds with
+  | nil => intro acc st hr _; exact hr
+  | cons d ds ih =>
+    intro acc st hr he
+    simp only [nodeFold, List.foldl_cons, List.map_cons] at he ⊢
+    have hpre := nodeFold_errs_prefix opts ms true ds (nodeStep opts ms true acc d)
+    simp only [nodeFold] at hpre
+    rw [he] at hpre
+    exact ih _ _ (seqRel_step opts ms acc st d hr (List.prefix_nil.mp hpre)) he
+
 end Goyang.Lemmas.Deviate
